@@ -328,3 +328,10 @@ package keeper
 //@   pure
 //@   ensures @stored_record err == nil ==> tsHas(bea_store, req.BeaconId, req.TimestampId) && tsGet(bea_store, req.BeaconId, req.TimestampId) == deref(resp.Timestamp)
 //@   ensures @of_that_beacon err == nil ==> bcHas(bea_store, req.BeaconId) && resp.Owner == bcGet(bea_store, req.BeaconId).Owner && resp.BeaconId == bcGet(bea_store, req.BeaconId).BeaconId
+
+// ================================================================ upgrade: parameter migration (C16) - hands the module store to v3.Migrate
+//@ func Migrator.Migrate2to3(ctx) (err)
+//@   props C16
+//@   modifies bea_store
+//@   ensures @only_the_parameter_key err == nil ==> bea_store == beaParamsPut(old(bea_store), beaParams(bea_store))
+//@   ensures @rejected_changes_nothing err != nil ==> bea_store == old(bea_store)
